@@ -52,12 +52,27 @@ D1Set   == { Cont(c, s) : c \in SetLikeCls, s \in { t \in SeqsUpTo(ItemAtoms, LL
 D1Range == { Cont("range", [i \in 1..n |-> Atom("int", i - 1)]) : n \in 0..LL }
 D1Iter  == { Iter(c, s) : c \in IterCls, s \in {<<>>, <<i1>>} }
 MapVals == CASE Tiny -> {i1, sa, eA} [] Tier = "quick" -> {i1, sa, none, ob, eA, fn} [] OTHER -> ItemAtoms \ {f1}
+\* Counter values: ints, bools (still "integer-valued"), other scalars, CONTAINERS (a subscripted child hint that is not
+\* a union of ints) and mixtures of them
+CounterVals == IF Tiny THEN {i1, sa, Cont("list", <<i1, i2>>)}
+               ELSE {i1, i2, bT, sa, f1, Cont("list", <<i1, i2>>), Cont("tuple", <<i1>>)}
 D1Map   == { Map(c, s) : c \in MapLikeCls, s \in { t \in SeqsUpTo(Pairs(KeyAtoms, MapVals), 2) : KeyDistinct(t) } }
-           \cup { Map("Counter", s) : s \in { t \in SeqsUpTo(Pairs(KeyAtoms, {i1, i2, sa}), 2) : KeyDistinct(t) } }
+           \cup { Map("Counter", s) : s \in { t \in SeqsUpTo(Pairs(KeyAtoms, CounterVals), 2) : KeyDistinct(t) } }
 Tup2(S, T) == { Cont("tuple", <<a, b>>) : a \in S, b \in T }
 D1Items == { Cont(c, s) : c \in {"dict_items", "odict_items"},
-               s \in { t \in SeqsUpTo(Tup2(SmallAtoms, {i1, sa, none, eA}), 2) :
+               s \in { t \in SeqsUpTo(Tup2(SmallAtoms, {i1, sa, none, eA, f1}), 2) :
                         \A i, j \in DOMAIN t : i # j => ~PyEq(t[i].items[1], t[j].items[1]) } }
+
+\* items that are == but of different types (1 == True == 1.0, 0 == False == 0.0) in every container kind whose items
+\* are inferred one by one under strategy On (an inference that deduplicates ITEMS instead of HINTS loses a type)
+f0 == Atom("float", 0)        \* 0.0
+EqAtoms == IF Tiny THEN {i1, bT, f1} ELSE {i1, bT, f1, i0, bF, f0, sa}
+EqCls == {"list", "deque", "USeq", "UColl", "UMSeq", "dict_values"}
+DEq == { Cont(c, s) : c \in EqCls, s \in SeqsUpTo(EqAtoms, LL) }
+       \cup { Cont(c, <<Cont("tuple", s)>>) : c \in {"list", "tuple"}, s \in SeqsUpTo(EqAtoms, 2) }   \* nested (variadic) tuples
+       \cup { Cont(c, <<Cont("tuple", <<a, b>>)>>) : c \in {"dict_items"}, a \in EqAtoms, b \in EqAtoms }
+       \cup { Map("dict", <<KV(sa, Cont("list", s))>>) : s \in SeqsUpTo(EqAtoms, 2) }
+       \cup { Cont("tuple", s) : s \in SeqsUpTo(EqAtoms, 2) }                                       \* root tuples (fixed)
 
 \* depth 2: containers of small containers, of X-class objects and of back-references
 Inner == { Cont(c, s) : c \in {"list", "tuple"}, s \in SeqsUpTo(SmallAtoms, 2) }
@@ -96,7 +111,7 @@ D3 == IF Tiny THEN {}
            \cup { x \in { Map("dict", <<KV(sa, v)>>) : v \in Mid3 } : WellFormed(x, <<>>) }
 
 Objs == AllAtoms \cup TypeObjs \cup D1Seq \cup D1Set \cup D1Range \cup D1Iter \cup D1Map \cup D1Items
-        \cup D2Seq \cup D2Set \cup D2Map \cup D3
+        \cup D2Seq \cup D2Set \cup D2Map \cup D3 \cup DEq
 OSeq == TLCEval(SetToSeq(Objs))
 NObj == TLCEval(Len(OSeq))
 
